@@ -317,3 +317,19 @@ fn hash_item<T: Hash>(item: &T) -> u64 {
     item.hash(&mut hasher);
     hasher.finish()
 }
+
+#[cfg(feature = "verif-hooks")]
+impl<T: Clone> ReversePurgeItemHashMap<T> {
+    /// Verification hook: every slot as (key if active, value, drift state).
+    pub(super) fn verif_slots(&self) -> Vec<(Option<T>, u64, u16)> {
+        (0..self.keys.len())
+            .map(|i| {
+                if self.states[i] > 0 {
+                    (self.keys[i].clone(), self.values[i], self.states[i])
+                } else {
+                    (None, 0, 0)
+                }
+            })
+            .collect()
+    }
+}
